@@ -543,5 +543,7 @@ inductive Step where
 		skeleton(findFunc("internal/chain/beacon", "callbackStore", "Put").Body.List, "callbackStore.Put"))
 	emit("publicRandSteps", "internal/core: `BeaconProcess.PublicRand`",
 		skeleton(findFunc("internal/core", "BeaconProcess", "PublicRand").Body.List, "PublicRand"))
+	emit("bootstrapSteps", "internal/core: `BeaconProcess.storeCurrentFromPeerNetwork` (memdb start-up)",
+		skeleton(findFunc("internal/core", "BeaconProcess", "storeCurrentFromPeerNetwork").Body.List, "storeCurrentFromPeerNetwork"))
 	l.pf("end Gen.BeaconNode\n")
 }
